@@ -3,6 +3,7 @@ package main
 // Symbolic values, shapes (type structure), locations, state and heap model.
 
 import (
+	"go/ast"
 	"fmt"
 	"go/constant"
 	"go/token"
@@ -465,6 +466,13 @@ type State struct {
 	log *WriteLog
 	// allocation watermark (Int term): references allocated so far are in (0, alloc)
 	alloc *Term
+	// deferred calls registered on this path (run when their frame returns, last first)
+	defers []deferred
+}
+
+type deferred struct {
+	fr   *Frame
+	call *ast.CallExpr
 }
 
 type WriteLog struct {
@@ -511,7 +519,7 @@ func (l *WriteLog) note(loc Loc) {
 }
 
 func (st *State) fork() *State {
-	n := &State{vals: make(map[*Cell]Val, len(st.vals)), heaps: make(map[string]*Term, len(st.heaps)), ctl: st.ctl, label: st.label, results: st.results, log: st.log, alloc: st.alloc, retPos: st.retPos}
+	n := &State{vals: make(map[*Cell]Val, len(st.vals)), heaps: make(map[string]*Term, len(st.heaps)), ctl: st.ctl, label: st.label, results: st.results, log: st.log, alloc: st.alloc, retPos: st.retPos, defers: append([]deferred{}, st.defers...)}
 	for k, v := range st.vals {
 		n.vals[k] = v
 	}
@@ -1031,6 +1039,17 @@ func (e *Engine) join(base *State, sts []*State) []*State {
 	}
 	n := len(base.pc)
 	guards := make([]*Term, len(sts))
+	for _, s := range sts[1:] {
+		// paths with different pending deferred calls stay separate
+		if len(s.defers) != len(sts[0].defers) {
+			return sts
+		}
+		for k := range s.defers {
+			if s.defers[k] != sts[0].defers[k] {
+				return sts
+			}
+		}
+	}
 	for i, s := range sts {
 		if len(s.pc) < n {
 			return sts
